@@ -25,7 +25,7 @@ for p in props:
     })
 m = {
     "version": 1,
-    "setup_cmd": "/venv/bin/python harness/translate.py && cd lean && lake build",
+    "setup_cmd": "/venv/bin/python harness/setup.py",
     "hooks": {
         "guard": "ZACH401_ACNPORTAL_VERIF",
         "enable": "no source hooks are needed: the harness observes through public API, subclasses and patching inside the harness process only",
